@@ -23,8 +23,10 @@ def short_tupleu(t, d, fam, depth=0) -> bool:
         return any(short_tupleu(t.args[0], x, fam, depth + 1) for x in d)
     if k == "tuplefix" and isinstance(d, (list, tuple, str)):
         return any(short_tupleu(a, x, fam, depth + 1) for a, x in zip(t.args, d))
-    if k in ("dict", "mapping", "ordereddict") and isinstance(d, dict):
+    if k in ("dict", "mapping", "ordereddict", "defaultdict", "mappingproxy") and isinstance(d, dict):
         return any(short_tupleu(t.args[1], x, fam, depth + 1) for x in d.values())
+    if k == "chainmap" and isinstance(d, (list, tuple)):
+        return any(isinstance(m, dict) and any(short_tupleu(t.args[1], x, fam, depth + 1) for x in m.values()) for m in d)
     if k == "opt":
         return d is not None and short_tupleu(t.args[0], d, fam, depth + 1)
     if k in ("data", "td") and isinstance(d, dict):
